@@ -28,6 +28,10 @@ type c10Req struct {
 	// DelayMs makes the backend answer late; MustHave is a cookie the backend must see
 	DelayMs  int
 	MustHave string
+	// Interim makes the backend send a 103 before its final response; DupSess makes
+	// the client present its session cookie twice (1: same header line, 2: two lines)
+	Interim bool
+	DupSess int
 }
 
 // worldC10: session tracking against an independent cookie jar per modelled session.
@@ -44,18 +48,21 @@ func worldC10(w *World) {
 	}
 	noSSL := t.Choice(2, "disable-ssl") == 1
 	timeout := []time.Duration{12 * time.Hour, time.Hour, 10 * time.Minute}[t.Choice(3, "timeout")]
-	hosts := []string{"app.example.test", "other.example.test", "example.test"}
+	// the registrable domain sits under a one-label or a two-label public suffix
+	suffix := []string{"test", "co.uk"}[t.Choice(2, "suffix")]
+	base := "example." + suffix
+	hosts := []string{"app." + base, "other." + base, base}
 	paths := []string{"/", "/a", "/a/b", "/c"}
 	names := []string{"sid", "pref", "token", "lang", "cart"}
 	mkSet := func(b, k int) string {
 		name := names[t.Choice(len(names), "cname")]
 		val := fmt.Sprintf("b%d-v%d-%d", b, k, t.Choice(1000, "cval"))
 		s := name + "=" + val
-		switch t.Pick("cattr", 4, 2, 2, 2, 2, 2, 1) {
+		switch t.Pick("cattr", 4, 2, 2, 2, 2, 2, 1, 1) {
 		case 1:
 			s += "; Path=" + paths[t.Choice(len(paths), "cpath")]
 		case 2:
-			s += "; Domain=example.test"
+			s += "; Domain=" + base
 		case 3:
 			s += fmt.Sprintf("; Max-Age=%d", []int{3, 30, 3600}[t.Choice(3, "maxage")])
 		case 4:
@@ -64,6 +71,10 @@ func worldC10(w *World) {
 			s = name + "=gone; Max-Age=0" // delete
 		case 6:
 			s = name + "=old; Expires=Thu, 01 Jan 1970 00:00:00 GMT"
+		case 7:
+			// a cookie for the whole public suffix: a compliant jar refuses it
+			s += "; Domain=" + suffix
+			w.Probe("public_suffix_domain_cookie")
 		}
 		return s
 	}
@@ -76,6 +87,8 @@ func worldC10(w *World) {
 			r.Set = append(r.Set, mkSet(r.Browser, k))
 		}
 		r.Gap = []time.Duration{0, 0, 2 * time.Second, 7 * time.Second, 100 * time.Second}[t.Choice(5, "gap")]
+		r.Interim = t.Rare(1, 5, "interim")
+		r.DupSess = t.Pick("dupsess", 6, 1, 1)
 		script = append(script, r)
 	}
 	// a burst: every browser at once, one of them twice (disjoint cookie names)
@@ -214,6 +227,12 @@ func worldC10(w *World) {
 			}
 			touch(b)
 			mu.Unlock()
+			if r.Header.Get("X-Interim") == "1" {
+				rw.Header().Set("Link", "</style.css>; rel=preload")
+				rw.WriteHeader(103)
+				rw.Header().Del("Link")
+				w.Probe("interim_1xx")
+			}
 			rw.Header().Set("X-Echo", "ok")
 			rw.Write([]byte("ok"))
 		}))
@@ -241,6 +260,9 @@ func worldC10(w *World) {
 		if r.MustHave != "" {
 			req.Header.Set("X-Must-Have", r.MustHave)
 		}
+		if r.Interim {
+			req.Header.Set("X-Interim", "1")
+		}
 		mu.Lock()
 		sess := br.sess
 		var cs []string
@@ -249,9 +271,17 @@ func worldC10(w *World) {
 			req.Header.Set("X-Had-Session", "1")
 		}
 		cs = append(cs, br.own...)
+		if sess != "" && r.DupSess == 1 {
+			cs = append(cs, "psess="+sess)
+			w.Probe("session_cookie_presented_twice")
+		}
 		mu.Unlock()
 		if len(cs) > 0 {
 			req.Header.Set("Cookie", strings.Join(cs, "; "))
+		}
+		if sess != "" && r.DupSess == 2 {
+			req.Header.Add("Cookie", "psess="+sess)
+			w.Probe("session_cookie_presented_twice")
 		}
 		sentAt := time.Now()
 		resp, err := cl.Do(req)
